@@ -89,12 +89,16 @@ def judge(ctx, scratch, traces, name='trace', timeout=3000, module='Trace_Codec'
             r.distinct, nev, ntr))
     rejects = []
     devs = {}
+    skips = set()
     for p in r.printed:
         if isinstance(p, list) and len(p) == 4 and p[0] == 'REJECT':
             rejects.append((p[1], p[2], p[3]))
         if isinstance(p, list) and len(p) == 4 and p[0] == 'DEV':
             devs[(p[1], p[2])] = sorted(p[3])
+        if isinstance(p, list) and len(p) == 3 and p[0] == 'SKIP':
+            skips.add((p[1], p[2]))
     ctx.last_devs = devs
+    ctx.last_skips = skips
     return sorted(set(rejects))
 
 
